@@ -96,10 +96,11 @@ def sqrtrem1Seed (np0 : Nat) : Nat × Nat :=
   if r > 2 * s then ((s + 1) % B, wsub r ((2 * s + 1) % B)) else (s, r)
 
 /-- mpn_sqrtrem1: `(s, r)` with `np0 = s² + r`; requires `np0 ≥ B/4`.  (The C returns `r != 0`.) -/
+def sqrtrem1Out (st : Nat × Nat × Nat) : Nat × Nat := (st.1, st.2.1)
+
 def sqrtrem1 (np0 : Nat) : Nat × Nat :=
-  let (s, r) := sqrtrem1Seed np0
-  let (s, r, _) := sqrtrem1Loop 6 8 (s, r, wshl np0 16)     -- prec = 8; np0 <<= 2 * prec
-  (s, r)
+  let sd := sqrtrem1Seed np0
+  sqrtrem1Out (sqrtrem1Loop 6 8 (sd.1, sd.2, wshl np0 16))   -- prec = 8; np0 <<= 2 * prec
 
 /-! ## mpn_sqrtrem2 (sqrtrem.c:203-243) -/
 
